@@ -36,7 +36,7 @@ std::string run(const Tokens& t) {
 	opts.streamOptions.writeBom = t[3] == "1";
 	if (!opts.streamOptions.writeBom) bomLen = 0;
 	std::mt19937 g(static_cast<unsigned>(std::stoul(t[4])));
-	static const char* pieces[] = { "a", "plain", "with,comma", "q\"uote", "\xC3\xA9", "\xE2\x82\xAC", "\xF0\x9F\x98\x80", "x y", "0", "-1" };
+	static const char* const pieces[] = { "a", "plain", "with,comma", "q\"uote", "\xC3\xA9", "\xE2\x82\xAC", "\xF0\x9F\x98\x80", "x y", "0", "-1" };
 	std::vector<RowE> value(1 + g() % 9);
 	for (auto& r : value) { r.x = static_cast<int>(g() % 100000) - 500; r.y = "v"; for (unsigned i = 0, n = g() % 4; i < n; ++i) r.y += pieces[g() % 10]; r.y += "w"; }
 	std::string saved;
